@@ -192,7 +192,18 @@ def run_selftest_for(prop: str, base_ctx: Ctx | None = None) -> int:
     cc = _counter_check(300, 20260102 + sum(map(ord, prop)))
     if cc["mismatches"]:
         bad.append({"id": "counted-loop-rewrite-differential", "expect": "identity", "verdict": "differs", "what": "", "detail": str(cc["first"][1])[:300]})
-    tc = dict(tc, counted_loop_programs=cc["programs"], counted_loop_rewritten=cc["rewritten"], counted_loop_mismatches=cc["mismatches"])
+    from .threadcheck import check_probe as _probe_check
+
+    pc_ = _probe_check(300, 20260104 + sum(map(ord, prop)))
+    if pc_["mismatches"]:
+        bad.append({"id": "probe-loop-rewrite-differential", "expect": "identity", "verdict": "differs", "what": "", "detail": str(pc_["first"][1])[:300]})
+    from .threadcheck import check_alias as _alias_check
+
+    ac_ = _alias_check(300, 20260105 + sum(map(ord, prop)))
+    if ac_["mismatches"]:
+        bad.append({"id": "buffer-alias-rewrite-differential", "expect": "identity", "verdict": "differs", "what": "", "detail": str(ac_["first"][1])[:300]})
+    tc = dict(tc, programs=tc["programs"] + ac_["programs"], rewritten=tc["rewritten"] + ac_["rewritten"], mismatches=tc["mismatches"] + ac_["mismatches"])
+    tc = dict(tc, counted_loop_programs=cc["programs"] + pc_["programs"], counted_loop_rewritten=cc["rewritten"] + pc_["rewritten"], counted_loop_mismatches=cc["mismatches"] + pc_["mismatches"])
     summary = {
         "loop_normalisation_differential": {k: tc[k] for k in ("programs", "rewritten", "mismatches", "counted_loop_programs", "counted_loop_rewritten", "counted_loop_mismatches")},
         "must_fire": {"total": sum(1 for v in variants if v["expect"] == "fire"), "killed": sum(1 for r in rows if r["verdict"] == "killed"),
@@ -253,5 +264,19 @@ def main() -> int:
     if rc_["mismatches"]:
         rc = 2
         print(str(rc_["first"][1])[:400])
+    from .threadcheck import check_probe as _probe_check
+
+    pr_ = _probe_check(1000, 20260104)
+    print(f"{'ok ' if not pr_['mismatches'] else 'BAD'} probe-loop rewrite differential: {pr_['programs']} programs, {pr_['rewritten']} rewritten, {pr_['mismatches']} mismatch(es)")
+    if pr_["mismatches"]:
+        rc = 2
+        print(str(pr_["first"][1])[:400])
+    from .threadcheck import check_alias as _alias_check
+
+    al_ = _alias_check(1000, 20260105)
+    print(f"{'ok ' if not al_['mismatches'] else 'BAD'} buffer-alias rewrite differential: {al_['programs']} programs, {al_['rewritten']} rewritten, {al_['mismatches']} mismatch(es)")
+    if al_["mismatches"]:
+        rc = 2
+        print(str(al_["first"][1])[:400])
     print(f"{len(variants)} variants in {time.time() - t0:.1f}s")
     return rc
